@@ -534,7 +534,7 @@ func verifC20(t *testing.T, r *vfh.Rand, out *vfh.Out) {
 	out.Flush()
 
 	sock := c20OpenSock(t)
-	run := func(sc *c20Scen) { out.Line(sc.caseLine(), c20Serve(t, sock, sc)) }
+	run := func(sc *c20Scen) { out.Pending(sc.caseLine()); out.Line(sc.caseLine(), c20Serve(t, sock, sc)) }
 
 	// enumerated: 2 tasks x palette x signal kind x signal instant (before / between / after
 	// the failures), gate on for the signals that arrive while the server runs
